@@ -30,7 +30,9 @@ claim("C08",
       "segment / of the parsed settings is given by one declarative table (own value; null disables the six nullable ones and is rejected for the "
       "others; absent inherits the level above, the top level being the documented defaults); other_defaults covers every non-overridable "
       "setting; explicit_shields proves that explicitly restated values resolve to themselves whatever the level above says (restating is the "
-      "identity, global changes never reach an overriding segment). Tie to the code: byte-equal outputs on the full 12 x 4 x 4 lattice and on random "
+      "identity, global changes never reach an overriding segment). Props/C08Src.lean: defaults_are_the_sources - the model's default Settings record "
+      "equals, field by field, the record lean/Src/Tables.lean holds, which tools/extract_tables.py regenerates from the settings_default_* "
+      "functions and `impl Default for Settings` of /repo's current settings.rs on every run (translator tie). Tie to the code: byte-equal outputs on the full 12 x 4 x 4 lattice and on random "
       "documents; on the implementation alone every case is re-run with all effective values restated on every segment and all global values "
       "replaced, and must give identical outputs.",
       "Lean 4 proof of the resolution table + differential correspondence + restate/shield metamorphic monitor", "DESIGN.md §8 C08")
@@ -102,7 +104,9 @@ claim("C16",
       "(settings_ok: d_path needs target_path, null only on the nullable six), top-level lists and a non-empty segments list (document_ok); "
       "unknown_key_rejected for all nine record levels. The same validDoc is the run-time oracle: implementation accept/reject is compared with "
       "it on the presence lattices in full (4608 file entries, 2^4 address subsets, 2^3 class placements, unknown key x 9 levels, every field x "
-      "{absent,null,value}, empty condition lists x 6 record kinds) and on mutated random documents. The bytes -> value tree step is "
+      "{absent,null,value}, empty condition lists x 6 record kinds) and on mutated random documents. Props/C16Src.lean: the key tables of the "
+      "model's decoder name exactly the fields of the *Serial structs of /repo's current sources, each with deny_unknown_fields "
+      "(lean/Src/Tables.lean, regenerated by tools/extract_tables.py on every run: translator tie). The bytes -> value tree step is "
       "serde_yaml's (not modelled).",
       "Lean 4 proof of accept = declarative validity predicate for the whole document + exhaustive lattices against the same predicate",
       "DESIGN.md §8 C16")
@@ -191,7 +195,9 @@ claim("C04",
 claim("C05",
       "Lean theorems (Props/C05.lean): section_symbols_defined, kind_symbols_defined, segment_symbols_defined (every family has start, end and "
       "size = ABSOLUTE(end - start), named by the style table; C10.class_sizes for classes; C13 for the header), kind_start_precedes_header "
-      "(the known finding, proved), and the naming table checked on concrete names. Image theorem image_group_symbols: for every object table and link state, a group's "
+      "(the known finding, proved), and the naming table checked on concrete names. Props/C05Src.lean: the 13 naming functions of the model "
+      "equal, for every style and name, the functions lean/Src/Tables.lean holds, which tools/extract_tables.py regenerates from the format! "
+      "strings of /repo's current linker_symbols_style.rs on every run (translator tie; the section-name conversion is fingerprinted). Image theorem image_group_symbols: for every object table and link state, a group's "
       "start symbol <= end symbol, size = end - start (32-bit), and the input sections its statements placed lie between them in the open output "
       "section. The known finding KF-C05-kind-start-before-header is reported as such." + IMG,
       "Lean 4 proofs of completeness/naming/size statements + real-link oracle for values", "DESIGN.md §8 C05")
